@@ -37,7 +37,7 @@ fn ver_of(s: &str) -> Result<Option<(VersionConstraint, Version)>, ()> {
 }
 
 fn strs_of(s: &str) -> Vec<String> {
-    if s == "-" {
+    if s == "-" || s == "_" {
         vec![]
     } else {
         s.split('.').map(unhex).collect()
